@@ -22,3 +22,16 @@ package keeper
 //@ ensures [only_governance_authority] err == nil ==> req.Authority == k.Keeper.authority
 //@ ensures [rejected_request_changes_nothing] req.Authority != k.Keeper.authority ==> err != nil && nothing_written()
 //@ ensures [sets_params] err == nil ==> reporter.Params == req.Params
+
+// ---- bonded stake of an account (C10, C19) ----
+// delegation(a, j) is the j-th of the ndelegations(a) staking delegations of account a, in the staking module's
+// iteration order; staking.validators is the validator store keyed by operator address.
+
+//@ define bonded_amount(d) = staking.validators[valaddr(d.ValidatorAddress)].Status == 3 ? tokens_from_shares(staking.validators[valaddr(d.ValidatorAddress)], d.Shares) / 1000000000000000000 : 0
+//@ define bsum(a, m) = sum j in [0, m) :: bonded_amount(delegation(a, j))
+
+//@ func (k Keeper).HasMin(ctx, addr, minRequired) (ok, err)
+//@ requires [positive_minimum] minRequired > 0
+//@ ensures [enough_iff_bonded_delegations_reach_the_minimum] err == nil ==> (ok <==> exists m in [0, ndelegations(addr) + 1) :: bsum(addr, m) >= minRequired)
+//@ iter 0 invariant [tokens_is_bonded_sum_so_far] tokens == bsum(addr, $k) && iterError == nil
+//@ iter 0 invariant [minimum_not_reached_yet] forall m in [0, $k + 1) :: bsum(addr, m) < minRequired
